@@ -37,20 +37,43 @@ def gen_and_replay(v, wd, ex, bind, pid, tier, rnd, scn, views, nrand, walk, dep
 
 CONFIG_VARIANTS = ("ndebug", "uchar")
 
+def config_variant_names(v=None):
+    """the fixed configurations plus one per compiler-controlled symbol that the tree's own preprocessor conditionals test"""
+    dyn, syms = conditional_variants()
+    VARIANTS.update(dyn)
+    if v is not None:
+        v.cov["preprocessor_conditionals_on_external_symbols"] = syms
+    return list(CONFIG_VARIANTS) + sorted(dyn)
+
 def replay_configs(v, wd, bind, vectors, pid, tier, rnd, publen=False, limit=None, readback=False):
     """The same TLC transitions through other build configurations of the library (release build with assert() compiled out,
     ABI with unsigned plain char): the specification has no configuration parameter, so every build must follow it."""
     import concurrent.futures as cf
     if limit and len(vectors) > limit:
         vectors = random.Random(7).sample(vectors, limit)
-    with cf.ThreadPoolExecutor(max_workers=2) as pool:
-        exes = list(pool.map(lambda x: build_exec(wd, x), CONFIG_VARIANTS))
+    names = config_variant_names(v)
+    with cf.ThreadPoolExecutor(max_workers=4) as pool:
+        exes = list(pool.map(lambda x: build_exec(wd, x), names))
     n = 0
-    for name, exe in zip(CONFIG_VARIANTS, exes):
+    for name, exe in zip(names, exes):
         st = pdu.replay(v, Executor(exe, wd), bind, vectors, pid, tier, rnd, publen=publen, places=[("E", 0)], tag="[build %s] " % name, readback=readback)
         n += st["executed"]
     v.cov["evaluations"] += n
-    v.cov.setdefault("build_configurations", ["default -O2"] + ["%s %s" % (VARIANTS[x][0], " ".join(VARIANTS[x][1])) for x in CONFIG_VARIANTS])
+    v.cov.setdefault("build_configurations", ["default -O2"] + ["%s %s" % (VARIANTS[x][0], " ".join(VARIANTS[x][1])) for x in names])
+    return n
+
+
+def for_each_config(v, wd, fn):
+    """run fn(executor, tag) for every extra build configuration (see replay_configs)"""
+    import concurrent.futures as cf
+    names = config_variant_names(v)
+    with cf.ThreadPoolExecutor(max_workers=4) as pool:
+        exes = list(pool.map(lambda x: build_exec(wd, x), names))
+    n = 0
+    for name, exe in zip(names, exes):
+        n += fn(Executor(exe, wd), "[build %s] " % name)
+    v.cov["evaluations"] += n
+    v.cov.setdefault("build_configurations", ["default -O2"] + ["%s %s" % (VARIANTS[x][0], " ".join(VARIANTS[x][1])) for x in names])
     return n
 
 
@@ -99,6 +122,8 @@ def c01(v, tier, seed):
     gen_and_replay(v, wd, ex, bind, "C01", tier, rnd, "sentinel", ALL_VIEWS, 0, False, props=["ReadOnlyOps"])
     # every descriptor shape the generic reader accepts (start quadlet x bit offset 0..31 x width 0..64), not only those of named fields
     shape_sweep(v, wd, ex, "C01", rnd, q, "descriptor", ops=("get",))
+    # readers that deliver through a pointer: the result object may lie inside the buffer that is read (field read first, then stored)
+    gen_and_replay(v, wd, ex, bind, "C01", tier, rnd, "alias", LEGACY_VIEWS, 0, False, props=["FrameOK"])
     traces(v, wd, ex, bind, "C01", rnd, 24000 if q else 1500000, ALL_VIEWS, ("get",), nshards=8 if q else 16)
     # the dedicated getter's return type must be able to carry the whole field
     layout = pdu.field_widths(wd)
@@ -269,6 +294,7 @@ def c05(v, tier, seed):
     v.cov["writable_library_symbols"] = [x["name"] for x in syms]
     # (0') a history compressed into prior contents: the field holds a neighbour (one bit / one carry away) of the value written next
     gen_and_replay(v, wd, ex, bind, "C05", tier, rnd, "nearset", ALL_VIEWS, 0, False, props=["FrameOK", "OthersKept"], invs=["ReadBack"], readback=True)
+    gen_and_replay(v, wd, ex, bind, "C05", tier, rnd, "alias", LEGACY_VIEWS, 0, False, props=["FrameOK"])
     # (a) exhaustive ordered pairs of operations: commutation, idempotence, RecordView
     run_hist(v, wd, ex, bind, "C05", rnd, "record", small if q else ALL_VIEWS, 2, 2, [1] if q else [0, 1, 5], 1,
              ["RecordView", "ReadsLastWritten"], name="GenHist/pairs")
@@ -332,6 +358,9 @@ def c12(v, tier, seed):
     # ... and states in which the small fields hold meaningful numbers together (pairwise-covering: format codes, depths, counts)
     for scn in ("sentinel", "nearset", "nearinit", "domain"):
         gen_and_replay(v, wd, ex, bind, "C12", tier, rnd, scn, LEGACY_VIEWS, 0, False, readback=(scn == "nearset"))
+    # the deprecated getters write their result through a pointer: it may point into the PDU itself (in-place conversion of a received
+    # header); the field must be read before the result object is written
+    gen_and_replay(v, wd, ex, bind, "C12", tier, rnd, "alias", LEGACY_VIEWS, 0, False, props=["FrameOK"])
     traces(v, wd, ex, bind, "C12", rnd, 8000 if q else 800000, LEGACY_VIEWS, ("get", "set", "init"), nshards=4 if q else 16, name="legacy-vs-current")
     # the repository's own unit tests (which drive the deprecated API) recorded through an LD_PRELOAD interposer
     unit_test_traces(v, wd, "C12")
@@ -350,6 +379,7 @@ def c17(v, tier, seed):
              ["ViewsAgree"], name="GenHist/views")
     # a shared field written through each view's own entry points on prior contents one bit away from the result (every view
     # is compared with the one specification of the shared field, so equal verdicts mean the views agree)
+    gen_and_replay(v, wd, ex, bind, "C17", tier, rnd, "alias", LEGACY_VIEWS, 0, False, props=["FrameOK"])
     res0, _ = gen_and_replay(v, wd, ex, bind, "C17", tier, rnd, "nearshared", ALL_VIEWS, 0, False, props=["FrameOK"], readback=True)
     replay_configs(v, wd, bind, res0.emitted, "C17", tier, rnd, limit=20000 if q else None, readback=True)
     v.cov["rule"] = ("for every group of views sharing fields: every ordered pair (A,B) of views x shared field x values x images: write through A, "
@@ -379,6 +409,9 @@ def c06(v, tier, seed):
         v.cov["evaluations"] += st["executed"]
         v.cov.setdefault("replayed_transitions", 0); v.cov["replayed_transitions"] += len(vecs)
         if vecs: v.sample({"tlc_transition": vecs[len(vecs) // 2]})
+        if scn == "create" and ls is lens:
+            sub = vecs if len(vecs) <= 6000 else random.Random(11).sample(vecs, 6000)
+            for_each_config(v, wd, lambda ex2, tag: can.replay(v, ex2, sub, rnd, places=[("E", 0)], tag=tag)["executed"])
     cmds, evs = can.drive(rnd, 6000 if q else 600000)
     outs = ex.run_robust(cmds)
     done = can.finish(evs, outs, v)
@@ -401,6 +434,9 @@ def vss_gen(v, wd, ex, pid, rnd, scn, modes, types, nbg, lens=(12,), big=False, 
     st = vss.replay(v, ex, res.emitted, rnd)
     v.cov["evaluations"] += st["executed"]
     v.cov.setdefault("replayed_transitions", 0); v.cov["replayed_transitions"] += len(res.emitted)
+    if scn in ("encode", "decode", "pad", "nearpad"):
+        sub = res.emitted if len(res.emitted) <= 6000 else random.Random(11).sample(res.emitted, 6000)
+        for_each_config(v, wd, lambda ex2, tag: vss.replay(v, ex2, sub, rnd, places=[("E", 0)], tag=tag)["executed"])
     if res.emitted:
         x = res.emitted[len(res.emitted) // 2]
         v.sample({"tlc_transition": {k: (x[k] if len(str(x[k])) < 300 else str(x[k])[:300]) for k in x}})
@@ -504,6 +540,8 @@ def c10(v, tier, seed):
     v.add_tlc("GenStrArr", res)
     if not res.ok: raise Infra("GenStrArr violates its own theorem:\n" + (res.violation or "")[-1500:])
     st = vss.sa_replay(v, ex, res.emitted)
+    small = [x for x in res.emitted if len(x["blob"]) < 5000]
+    for_each_config(v, wd, lambda ex2, tag: vss.sa_replay(v, ex2, small, tag=tag)["executed"])
     v.cov["evaluations"] += st["executed"]; v.cov["replayed_transitions"] = len(res.emitted)
     x = next((e for e in res.emitted if e["op"] == "unpack" and e["req"] > e["count"] > 0), res.emitted[0])
     v.sample({"tlc_transition": {k: (x[k] if len(str(x[k])) < 300 else "...") for k in x}})
@@ -579,6 +617,19 @@ def c13(v, tier, seed):
             v.add_tlc("GenBo/%s/%d" % (branch, 8 * size), res)
             if not res.ok: raise Infra("ByteOrder violates T11:\n" + (res.violation or "")[-1200:])
             cmds = ["BO %s %d %s" % (e["fn"], e["size"], hexs(e["x"])) for e in res.emitted]
+            if branch == "LE":
+                # the helpers are inline functions of a header: every other build configuration of the tree compiles its own copy
+                def bo_in_config(ex2, tag, cmds=cmds, em=res.emitted, size=size):
+                    sub_i = list(range(0, len(cmds), max(1, len(cmds) // 4000)))
+                    o2 = ex2.run_robust([cmds[i] for i in sub_i])
+                    for i, line in zip(sub_i, o2):
+                        e = em[i]
+                        t = dict(x.split("=") for x in line.split()[2:]) if line.startswith("R ok") else {}
+                        if t.get("val") != hexs(e["val"]) or t.get("img") != hexs(e["img"]):
+                            v.violation("bo fn=%s%d branch=LE %s" % (e["fn"], 8 * size, tag.strip()), "%sAvtp_%s%d(0x%s): value %s image %s, specification value %s image %s" % (
+                                tag, e["fn"], 8 * size, hexs(e["x"]), t.get("val"), t.get("img"), hexs(e["val"]), hexs(e["img"])), {"vector": e, "observed": line})
+                    return len(sub_i)
+                for_each_config(v, wd, bo_in_config)
             outs = exs[branch].run_robust(cmds)
             for e, line in zip(res.emitted, outs):
                 t = dict(x.split("=") for x in line.split()[2:]) if line.startswith("R ok") else {}
